@@ -310,8 +310,8 @@ def build_args(case):
 
 def call_impl(kind, params, series, mean_arg, ini_arg):
     """One call of the public API on the given objects (None = argument left to its default).
-    Returns (effective mean, effective ini, output list or None, exception text or None);
-    the effective values are those the docstrings define for the defaults."""
+    Returns (effective mean, effective ini, output list or None, exception text or None, returned
+    object); the effective values are those the docstrings define for the defaults."""
     from hydrodiy.stat import armodels
     kw = {}
     if kind == 0:
@@ -341,10 +341,8 @@ def call_impl(kind, params, series, mean_arg, ini_arg):
         with np.errstate(all="ignore"):
             res = fn(params, series, **kw)
         out = [float(x) for x in np.asarray(res).reshape(-1)]
-    except ValueError as e:
-        out, exc = None, repr(e)[:200]
-    except Exception as e:      # noqa: BLE001 - reported by the oracle as a rejection
-        out, exc = None, repr(e)[:200]
+    except Exception as e:      # noqa: BLE001 - ValueError = the property's rejection; any other
+        out, exc = None, repr(e)[:200]      # exception is judged by the caller / the oracle as a rejection too
     return mean, ini, out, exc, res
 
 
